@@ -7,7 +7,9 @@ import (
 	"context"
 	"crypto/sha256"
 
+	"github.com/codenotary/immudb/embedded/ahtree"
 	"github.com/codenotary/immudb/embedded/verifrt"
+	"github.com/codenotary/immudb/embedded/watchers"
 )
 
 type verifSetCall struct {
@@ -128,5 +130,62 @@ func VerifH_ExportReplicateRoundTrip() {
 		} else {
 			verifrt.Assert(bytes.Equal(sets[i].value, vals[i]), "same value")
 		}
+	}
+}
+
+// VerifH_ReplicaPrecommit: on a replica (a header is provided), precommit reaches
+// performPrecommit only if the header extends the replica's chain: ID = last+1, PrevAlh = last
+// Alh, BlRoot = the replica's own root at BlTxID, entry count matches and (integrity check on)
+// Eh matches the entries. Replica pre-state, header and entry are symbolic.
+func VerifH_ReplicaPrecommit() {
+	last := verifrt.U64("last")
+	verifrt.Assume(last <= 5)
+	lastAlh := verifrt.Digest("lastAlh")
+	rootOracle := verifrt.Digest("replicaRoot") // the replica's tree root at hdr.BlTxID
+	skip := verifrt.Bool("skipIntegrityCheck")
+
+	hdr := verifAdvHeader(0, 0, 1)
+	hdr.ID = verifrt.U64("hdr.ID")
+	hdr.BlTxID = verifrt.U64("hdr.BlTxID")
+	verifrt.Assume(hdr.ID <= 8 && hdr.BlTxID <= 8)
+	hdr.NEntries = int(verifrt.Byte("hdr.NEntries"))
+
+	e := &EntrySpec{Key: verifrt.Bytes("key", 2), Value: verifrt.Bytes("val", 1)}
+	otx := &OngoingTx{entries: []*EntrySpec{e}}
+
+	alloc := NewTx(2, 4)
+	verifrt.Stub("(*embedded/store.ImmuStore).fetchAllocTx", func(s *ImmuStore) (*Tx, error) { return alloc, nil })
+	verifrt.Stub("(*embedded/store.ImmuStore).releaseAllocTx", func(s *ImmuStore, tx *Tx) {})
+	verifrt.Stub("(*embedded/watchers.WatchersHub).WaitFor", func(w *watchers.WatchersHub, ctx context.Context, t uint64) error { return nil })
+	verifrt.Stub("(*embedded/ahtree.AHtree).RootAt", func(t *ahtree.AHtree, n uint64) ([sha256.Size]byte, error) { return rootOracle, nil })
+	performed := false
+	var pTs int64
+	var pBl uint64
+	verifrt.Stub("(*embedded/store.ImmuStore).performPrecommit", func(s *ImmuStore, tx *Tx, entries []*EntrySpec, ts int64, blTxID uint64) error {
+		performed = true
+		pTs, pBl = ts, blTxID
+		return nil
+	})
+	st := &ImmuStore{maxTxEntries: 4, maxKeyLen: 4, maxValueLen: 4, maxActiveTransactions: 100, embeddedValues: true,
+		inmemPrecommittedTxID: last, inmemPrecommittedAlh: lastAlh}
+
+	_, err := st.precommit(context.Background(), otx, hdr, skip)
+	if !performed {
+		verifrt.Assert(err != nil, "a rejected transaction reports an error")
+		verifrt.Reach("rejected")
+		return
+	}
+	verifrt.Reach("accepted")
+	verifrt.Assert(hdr.ID == last+1, "id is the successor of the last precommitted tx")
+	verifrt.Assert(hdr.PrevAlh == lastAlh, "PrevAlh is the replica's last Alh")
+	if hdr.BlTxID > 0 {
+		verifrt.Assert(hdr.BlRoot == rootOracle, "BlRoot is the replica's root at BlTxID")
+	} else {
+		verifrt.Assert(hdr.BlRoot == [sha256.Size]byte{}, "BlRoot is empty without binary linking")
+	}
+	verifrt.Assert(hdr.NEntries == 1, "entry count matches")
+	verifrt.Assert(pTs == hdr.Ts && pBl == hdr.BlTxID, "timestamp and BlTxID taken from the header")
+	if !skip {
+		verifrt.Assert(alloc.header.Eh == hdr.Eh, "Eh matches the entries")
 	}
 }
